@@ -103,7 +103,7 @@ def cmd_run(pid, tier, seed):
     errors = []
     for r in results:
         for e in r['errors']:
-            errors.append(f'{r["template"]} {r["cfg"]}: {e}')
+            errors.append(f'{r["template"]} {_short(r["cfg"])}: {e}')
     # ---- twin: the pipeline model -> replay file -> z3-free replay -> report must work in this run
     twin_ok = False
     tv = [v for v in twin['violations'] if v['clause'].endswith('__twin_false__')]
@@ -132,7 +132,7 @@ def cmd_run(pid, tier, seed):
             else:
                 unreproduced.append((v, p, outp))
     for v, p, outp in unreproduced:
-        errors.append(f'counterexample for {v["clause"]} ({v["template"]} {v["cfg"]} {v["model"]}) did not reproduce in concrete replay: '
+        errors.append(f'counterexample for {v["clause"]} ({v["template"]} {_short(v["cfg"])} {v["model"]}) did not reproduce in concrete replay: '
                       f'encoding or stub wrong; replay file {p}')
 
     # ---- known findings: confirm one model per entry by concrete replay, print KNOWN-FINDING lines
@@ -168,7 +168,7 @@ def cmd_run(pid, tier, seed):
         print(line)
     for v, p in violation_lines:
         print(f'VIOLATION property={pid} replay={p}')
-        print(f'  clause={v["clause"]} template={v["template"]} cfg={v["cfg"]} model={v["model"]}')
+        print(f'  clause={v["clause"]} template={v["template"]} cfg={_short(v["cfg"])} model={v["model"]} info={str(v.get("info"))[:300]}')
     for e in errors:
         print('INCONCLUSIVE:', e)
 
@@ -236,6 +236,12 @@ def cmd_run(pid, tier, seed):
     if errors:
         return EXIT_INCONCLUSIVE
     return EXIT_OK
+
+
+def _short(cfg):
+    if isinstance(cfg, dict) and 'scenario' in cfg:
+        return {'scenario': cfg['scenario'], 'order': cfg.get('order')}
+    return cfg
 
 
 def _stubs():
